@@ -275,7 +275,7 @@ def run(chk: Check):
 
                     args += list(Playback.__members__.values()) + ["Play", None, 3]
                 elif m == "mem":
-                    args += [None, 1, 40, 7, "Auto", "12"]
+                    args += [None, 1, 2, 39, 40, 7, "Auto", "12"]
                 elif m == "scene":
                     args += [1, 12, "3", "x", 0]
                 elif m == "remotecode":
@@ -313,6 +313,9 @@ def run(chk: Check):
                         chk.violation(f"{cls.__name__}.{m}:raise-but-sent", f"{cls.__name__}.{m}({a!r}) raised but transmitted {sent!r}", rep)
                     if m == "remotecode" and type(a) is str and len(a) == 8:
                         chk.violation(f"{cls.__name__}.{m}:valid-raises", f"remotecode({a!r}) raised {res[1]}", rep)
+                    if m == "mem" and type(a) is int and 1 <= a <= 40:
+                        # the documented domain of the memory slot is 1-40, both ends included
+                        chk.violation(f"{cls.__name__}.{m}:valid-raises", f"mem({a!r}) raised {res[1]} although {a} is a valid memory slot (1-40)", rep)
                 if m == "remotecode" and type(a) is str and len(a) != 8 and res[0] == "ok":
                     chk.violation(f"{cls.__name__}.{m}:out-of-domain", f"remotecode({a!r}) of length {len(a)} was transmitted", rep)
                 if a is NOARG or coq_pyval(a) is not None:
